@@ -22,6 +22,7 @@ import Simfile.Lemmas.MsdTextStray
 import Simfile.Model.Source
 import Simfile.Model.Convert
 import Simfile.Model.Views
+import Simfile.Model.Edit
 import Simfile.Model.Dir
 import Simfile.Model.Path
 import Simfile.Model.Tree
@@ -182,6 +183,36 @@ def getSM (j : Json) : R SMSimfile := do
   pure { props := ← getDict (← field j "props"), charts := ← getArr getSMChart (← field j "charts") }
 def getSSC (j : Json) : R SSCSimfile := do
   pure { props := ← getDict (← field j "props"), charts := ← getArr getSSCChart (← field j "charts") }
+def getSMEdit (j : Json) : R SMEdit := do
+  let a := (← j.getArr?).toList
+  let optList (e : Json) : R (Option (List Str)) := if e.isNull then pure none else do pure (some (← getArr getStr e))
+  match a with
+  | [t, x] =>
+    match (← t.getStr?) with
+    | "delkey" => pure (.delKey (← getStr x))
+    | "delattr" => pure (.delAttr (← getStr x))
+    | "append" => pure (.appendChart (← getSMChart x))
+    | "pop" => pure (.popChart (← getNat x))
+    | s => throw s!"bad edit {s}"
+  | [t, x, y] =>
+    match (← t.getStr?) with
+    | "setkey" => pure (.setKey (← getStr x) (← getOptStr y))
+    | "setattr" => pure (.setAttr (← getStr x) (← getStr y))
+    | "insert" => pure (.insertChart (← getNat x) (← getSMChart y))
+    | "set" => pure (.setChart (← getNat x) (← getSMChart y))
+    | "extra" => pure (.setExtra (← getNat x) (← optList y))
+    | s => throw s!"bad edit {s}"
+  | [t, x, y, z] =>
+    match (← t.getStr?) with
+    | "field" => pure (.setField (← getNat x) (← getStr y) (← getStr z))
+    | s => throw s!"bad edit {s}"
+  | [t] =>
+    match (← t.getStr?) with
+    | "reverse" => pure .reverseCharts
+    | "clear" => pure .clearCharts
+    | s => throw s!"bad edit {s}"
+  | _ => throw "bad edit"
+
 def jObjErr : Err → Json
   | .valueError => jErr "ValueError"
   | .keyError => jErr "KeyError"
@@ -431,6 +462,7 @@ def handle (j : Json) : R Json := do
   | "obj.load_ssc_chart" => pure (jExcept jObjErr jSSCChart (loadSSCChart (← getArr getParam (← field j "params"))))
   | "obj.sm_chart_from_str" => pure (jExcept jObjErr jSMChart (smChartFromStr (← getStr (← field j "s"))))
   | "obj.sm_chart_from_msd" => pure (jExcept jObjErr jSMChart (smChartFromMsd (← getArr getStr (← field j "values"))))
+  | "edit.apply" => pure (jSM (applyEdits (← getSM (← field j "sf")) (← getArr getSMEdit (← field j "edits"))))
   | "obj.notes_last" => pure (jSSC (← getSSC (← field j "sf")).notesLast)
   | "source.use_chart" => pure (jExcept jSErr jBool (useChart (← getSrc (← field j "sim")) (← getOptSrc (fieldD j "chart" Json.null))))
   | "source.timing_data" =>
